@@ -62,4 +62,8 @@ MUTANTS = [
     M("c17-hook-skipped-on-eof", "C17", "on_disconnect is skipped when the stream was already closed by the read that hit end-of-stream",
       (P, "        self._channel.close()\n        self._local_root.on_disconnect(self)",
           "        was_open = not self._channel.closed\n        self._channel.close()\n        if was_open:\n            self._local_root.on_disconnect(self)")),
+    M("c17-revert-rewrapped-socket-tracking", "C17", "(*) the socket object returned by the authenticator is not tracked: close() shuts down only the accepted (detached) one",
+      (S, "                    self.clients.add(sock2)\n", "                    pass\n")),
+    M("c17-rewrapped-socket-left-in-table", "C17", "(*) the socket object returned by the authenticator is never removed from server.clients",
+      (S, "            self.clients.discard(sock)\n            self.clients.discard(sock2)\n", "            self.clients.discard(sock)\n")),
 ]
